@@ -341,8 +341,8 @@ def run_eval(inputs, mask=None, stall_s=60, variant="plain"):
             outputs.append(f"{culprit} => fault {what}")
             pos += 1
             restarts += 1
-            if restarts > 40:
-                # give up on the rest; report them as not evaluated
+            if restarts >= 3:
+                # three crashes / hangs are decisive; do not spend hours on the rest (they stay unevaluated)
                 break
     return t_seen, outputs
 
@@ -376,9 +376,11 @@ def evaluate(inputs, mask=None, variant="plain"):
     t, outs = run_eval(inputs, mask, variant=variant)
     t = t or 1
     # a stall under heavy machine load is not a hang: retry a timed-out line once, alone, with a long limit
+    retried = 0
     for i_, o_ in enumerate(outs):
-        if o_.endswith(" => fault timeout"):
-            _t2, again = run_eval([inputs[i_]], mask, stall_s=240, variant=variant)
+        if o_.endswith(" => fault timeout") and retried < 2:
+            retried += 1
+            _t2, again = run_eval([inputs[i_]], mask, stall_s=150, variant=variant)
             if again:
                 outs[i_] = again[0]
     res = []
@@ -467,6 +469,8 @@ def shrink(rec, mask, budget=40):
     """Greedy shrinking that keeps the verdict status. Bounded number of harness round trips."""
     want = rec["status"]
     best = rec
+    if "fault timeout" in rec.get("detail", ""):
+        return rec  # every shrinking probe of a hanging input costs a stall timeout
     t_start = time.time()
     for _ in range(budget):
         if time.time() - t_start > 45:
